@@ -6,6 +6,22 @@ def chk(pid, category, text, note, technique, design_ref):
             "level_note": note, "technique": technique}
 
 CHECKS = [
+    chk("C01", "exploration",
+        "An exhaustive access matrix (5 session states x 12 object classes x token/session x {live handle used through the other token, stale handle after logout} x 17 entry points accepting an object handle) plus thousands of Hypothesis-generated histories over two tokens with same-token and cross-token probes; after every login-state change the complete object view of the sessions is compared with a reference model; creations are judged by their read-back effect. Held on everything explored; the matrix is enumerated completely.",
+        "API-level judgement only: denials that also follow from the missing token key (defence in depth inside single entry points) cannot be separated from the access rule; trusts the reference model in py/vlib/objworld.py.",
+        "model-based stateful PBT (Hypothesis) + exhaustive access-matrix enumeration", "DESIGN.md 2/C01"),
+    chk("C09", "exploration",
+        "Generated histories biased to failing object-management calls (templates corrupted at a generated position, wrong session state, dead handles) on token and session objects; after every failing call the complete census through two sessions per token is compared with the state committed by the last successful call, and again at the end of the history.",
+        "In-memory and API-visible state; the token directory / fault-injection legs are reported separately inside the evidence when present.",
+        "model-based stateful PBT with full-census oracle after every failing call", "DESIGN.md 2/C09"),
+    chk("C11", "exploration",
+        "Generated histories of session and object lifecycle calls over two tokens; every handle ever issued is recorded with what it denotes and probed after EVERY call (C_GetSessionInfo / C_GetObjectSize) for being alive exactly when the model says so; every issued handle value is checked against all earlier ones; after lifecycle calls the object views of the remaining sessions are compared with the model.",
+        "C_GetObjectSize as liveness probe; at most the 200 most recent object handles are swept per step.",
+        "model-based stateful PBT with per-step handle liveness sweep", "DESIGN.md 2/C11"),
+    chk("C19", "exploration",
+        "Generated populations (11 classes, token/session, private/public, two tokens) and generated templates drawn from the population (plus one-byte-shorter/longer and literal values, empty values, lacking attributes) searched in every login state with generated batch-size sequences; the union of all batches must equal a reference matcher over the model exactly.",
+        "The model's attribute values come from C_GetAttributeValue right after each mutation (a different code path from the search matcher).",
+        "model-based PBT with reference matcher (differential against an independent matcher)", "DESIGN.md 2/C19"),
     chk("C03", "exploration",
         "Every call sequence up to depth 3 (quick) / 4 (thorough) over a 28-letter alphabet is executed against the real library and judged by a reference automaton written from PKCS#11, plus thousands of Hypothesis-generated sequences of up to 50/100 calls over the full alphabet; after every call every session handle ever issued is observed. Held on everything explored; exhaustive only up to the stated depth.",
         "Trusts the reference automaton (py/checks/c03.py Model) and C_GetSessionInfo as the observation; wrong-PIN acceptance (2^-32) ignored.",
